@@ -84,8 +84,9 @@ def _pyx_function(src, name, fname):
     if not m:
         raise ValueError(f"function {name} not found in {fname}")
     rest = src[m.start():]
-    end = re.search(r"^(?:def |cdef |cpdef |@cython|ctypedef |class )", rest[1:], re.M)
-    return rest[:end.start() + 1] if end else rest
+    skip = m.end() - m.start()
+    end = re.search(r"^(?:def |cdef |cpdef |@cython|ctypedef |class )", rest[skip:], re.M)
+    return rest[:end.start() + skip] if end else rest
 
 
 def _strip_doc_comments(text):
@@ -325,9 +326,6 @@ def gen_lean():
     x_u = guard(ug, r"elif max_score - total_score (>=|>) threshold:", "ungapped X-drop test")
     k_u = guard(ug, r"if total_score (>=|>) max_score:", "ungapped max tracking test")
     l_g = guard(lg, r"if new_shape\[0\] \* new_shape\[1\] (>=|>) max_size:", "_extend_table size limit test")
-    crop = re.search(r"lower_diag = max\(lower_diag, -len\(seq1\)\+1\)\s*\n\s*upper_diag = min\(upper_diag,\s*len\(seq2\)-1\)", bd)
-    if not crop:
-        raise ValueError("band cropping statements not found in banded.pyx")
     body = ["/- REGENERATED on every run by harness/props/c09.py from sequence/align/{banded,localgapped,localungapped}.pyx. Do not edit. -/",
             "namespace BiotiteModel.Gen.C09",
             "/-- `INIT_SIZE` of localgapped.pyx -/",
